@@ -76,4 +76,9 @@ CHECKS = {
         technique='Hypothesis search over spaces x 6 converter classes x options x data; round-trip, 50-digit reference scaling and independent membership oracle',
         text='Flat spaces x {DefaultTrialConverter, TrialToArrayConverter, TrialToModelInputConverter, TrialToContinuousAndCategoricalConverter, PaddedTrialToArrayConverter, ProblemAndTrialsScaler} x options (scale, onehot, pad_oovs, max_discrete_indices 0/10/inf, float32/64, clipping, padding schedules). Encode then decode is exact for INTEGER / DISCRETE / CATEGORICAL and within a condition-scaled ulp bound for DOUBLE; scaled features are compared with a 50-digit decimal reference of the LINEAR / LOG / REVERSE_LOG formulas (endpoints, midpoints, monotone); one-hot blocks and index positions exact; arbitrary arrays of the published spec (out of range, extremes, degenerate one-hot blocks, OOV indices) decode to members per the independent membership oracle of harness/spaces.py; objective labels round-trip under both sign conventions; inputs are not mutated.',
         note='trusts harness/spaces.member, the decimal reference and tolerance model in harness/c15_model.py, carrier dtype of returned arrays, bounds clamped to 1e+-30 for float32 carriers, strictly positive LOG ranges; flat spaces only'),
+    'C17': dict(
+        category=EXPL,
+        technique='Hypothesis-generated builder specs x trials vs expectation computed from the spec alone (active set, key set, index order, value, exact Python type)',
+        text='Builder specs (all kinds, auto_cast on/off/default, boolean feasible subsets, gapped and unsorted indexed name[i] families, conditional depth <= 3, shared child names, hostile names) x valid / unknown-parameter / inactive-child / incomplete trials. Every read through StudyConfig.trial_parameters (config built directly, via from_problem, or re-read through to_proto/from_proto) and through clients.Trial.parameters on RAM and SQL servicers (trials stored by add_trial, request, raw CreateTrial or suggest; read from the returned handle, get_trial, trials() iteration) is compared with the expectation: only active parameters, bool / int / float / str exactly as declared, indexed families grouped into one list in index order, unknown or inactive parameters reported as ValueError.',
+        note='in-process servicer only (no gRPC transport); INTEGER parameters: any integral int or float accepted (the statement does not demand int)'),
 }
